@@ -3,13 +3,13 @@ package checks
 import (
 	"bytes"
 	"context"
-	"time"
 	"encoding/json"
 	"fmt"
 	"os"
 	"os/exec"
 	"runtime"
 	"sync"
+	"time"
 )
 
 // worker runs this binary again as a single-threaded worker process and decodes its JSON result.
